@@ -174,6 +174,120 @@ def check_leaf_index(ctx, rep, rule, prefix=''):
                   f"and sampling dates are stored in Taxa order, so the leaf is paired with another taxon's data whenever the two orders differ")
 
 
+CHILD_POSITIVE = """
+def heights(tree, eps):
+    for node in tree.postorder_node_iter():
+        if not node.is_leaf():
+            child = next(node.child_node_iter())
+            h[node.index] = h[child.index] + max(eps, child.edge_length)
+def first(tree):
+    for node in tree.postorder_node_iter():
+        kids = node.child_nodes()
+        h[node.index] = h[kids[0].index]
+def both(tree):
+    for node in tree.postorder_node_iter():
+        kids = node.child_nodes()
+        out.append((node.index, kids[0].index, kids[1].index))
+"""
+LABEL_POSITIVE = """
+def translate(tree, taxa):
+    for taxon in tree.taxon_namespace:
+        taxon.label = taxa[int(taxon.label) - 1].id
+"""
+
+
+def single_child_selections(fn):
+    """[(node, description, symmetric?)]: places where a function picks children of a tree node one at a time.  `next(x.child_node_iter())` and a constant index
+    into `x.child_nodes()` (or a name bound to it / an attribute called children) select by the order in which the children were written; the selection is
+    order-free only if every child of the (binary) node is selected in the same function, i.e. both index 0 and index 1."""
+    out = []
+    kid_names = set()
+    for st in ast.walk(fn):
+        if isinstance(st, ast.Assign) and len(st.targets) == 1 and isinstance(st.targets[0], ast.Name) and isinstance(st.value, ast.Call) \
+                and method_name(st.value) in ('child_nodes', 'child_node_iter'):
+            kid_names.add(st.targets[0].id)
+    groups = {}
+    for x in ast.walk(fn):
+        if isinstance(x, ast.Call) and isinstance(x.func, ast.Name) and x.func.id == 'next' and x.args:
+            a = x.args[0]
+            if isinstance(a, ast.Call) and isinstance(a.func, ast.Name) and a.func.id == 'iter' and a.args:
+                a = a.args[0]
+            if isinstance(a, ast.Call) and method_name(a) in ('child_node_iter', 'child_nodes'):
+                out.append((x, f"`{ast.unparse(x)}` (the first child only)", False))
+        if isinstance(x, ast.Subscript) and isinstance(x.slice, ast.Constant) and isinstance(x.slice.value, int):
+            base = x.value
+            txt = None
+            if isinstance(base, ast.Call) and method_name(base) == 'child_nodes':
+                txt = ast.unparse(base)
+            elif isinstance(base, ast.Name) and base.id in kid_names:
+                txt = base.id
+            elif isinstance(base, ast.Attribute) and base.attr in ('children', '_child_nodes'):
+                txt = ast.unparse(base)
+            if txt is not None:
+                groups.setdefault(txt, []).append(x)
+    for txt, subs in groups.items():
+        ks = {s_.slice.value for s_ in subs}
+        out.append((subs[0], f"`{txt}[k]` for k in {sorted(ks)}", {0, 1} <= ks))
+    return out
+
+
+def check_child_symmetry(ctx, rep):
+    t = ast.parse(CHILD_POSITIVE)
+    got = [[sym for _, _, sym in single_child_selections(f)] for f in t.body]
+    if got != [[False], [False], [True]]:
+        raise AnalysisError(f"C02.N self-check: child selections of the embedded examples classified as {got}")
+    n = 0
+    for m in ctx.prog.modules.values():
+        if not (m.name.startswith('torchtree.evolution') or m.name.startswith('torchtree.cli')):
+            continue
+        for fn in ast.walk(m.tree):
+            if not isinstance(fn, ast.FunctionDef):
+                continue
+            sel = single_child_selections(fn)
+            for node, desc, sym in sel:
+                n += 1
+                cl = getattr(fn, '_parent', None)
+                scope = f"{cl.name}.{fn.name}" if isinstance(cl, ast.ClassDef) else fn.name
+                rep.check('C02.N', f"{m.name.replace('torchtree.', '')}::{scope}::children-selected-one-at-a-time-are-all-selected", sym, where(m, node), {'selection': desc},
+                          f"{scope} uses {desc} of a node: which child that is depends on the order the children were written in the newick string, and the other child "
+                          f"never enters the computation — reordering the children of a node changes the result")
+    rep.analysed['single_child_selection_sites'] = n
+    if n < 3:
+        rep.incomplete('C02.N', 'child-selections', '', f"only {n} child selections found (expected the traversal tables of tree_model / tree_regression / io)")
+
+
+def positional_label_lookups(tree):
+    """subscripts `T[… int(<x>.label) …]`: a leaf label parsed as a number and used as a position in another sequence"""
+    out = []
+    for x in ast.walk(tree):
+        if isinstance(x, ast.Subscript):
+            for c in ast.walk(x.slice):
+                if isinstance(c, ast.Call) and isinstance(c.func, ast.Name) and c.func.id == 'int' and c.args \
+                        and any(isinstance(a, ast.Attribute) and a.attr in ('label', 'taxon') for a in ast.walk(c.args[0])):
+                    out.append(x)
+                    break
+    return out
+
+
+def check_labels_are_names(ctx, rep):
+    if len(positional_label_lookups(ast.parse(LABEL_POSITIVE))) != 1:
+        raise AnalysisError('C02.N self-check: the positional label lookup of the embedded example is not recognised')
+    tm = ctx.prog.module(TMOD)
+    hits = []
+    mods = [m for m in ctx.prog.modules.values() if m.name.startswith('torchtree.evolution')]
+    for m in mods:
+        for x in positional_label_lookups(m.tree):
+            hits.append((m, x))
+    key = 'evolution::leaf-labels-are-taxon-names-never-positions'
+    if hits:
+        m, x = hits[0]
+        rep.bad('C02.N', key, where(m, x), {'lookups': [ast.unparse(h)[:80] for _, h in hits]},
+                f"`{ast.unparse(x)[:80]}` reads a leaf label as a number and uses it as a position: a taxon whose NAME is that number is attached to whatever taxon sits at "
+                f"that position of the list, so tip data are matched by list order instead of by name")
+    else:
+        rep.ok('C02.N', key, where(tm, tm.functions['parse_tree']), {'modules_scanned': len(mods)})
+
+
 def check_names(ctx, rep):
     from sa.cfg import CFG
     tm = ctx.prog.module(TMOD)
@@ -263,6 +377,18 @@ def check_names(ctx, rep):
         ok = bool(names) and len(pd) == 1 and ast.unparse(pd[0].value).replace(' ', '').startswith(f"dict(zip({names[0]},")
     rep.check('C02.N', 'compress::patterns-keyed-by-taxon-name', ok, where(sm, f) if f is not None else '', None,
               "compress must key the compressed columns by the taxon name that came with each sequence")
+    # (e') a pattern stands for columns with the very same symbols only (which column of a merged set is kept depends on the order of the sites / taxa)
+    from props import c01
+    if f is not None:
+        raw, facts = c01.counter_keys_are_raw_columns(f)
+        if raw is None:
+            rep.undecided('C02.N', 'compress::patterns-are-the-distinct-raw-columns', where(sm, f), facts.get('why', 'column counter not recognised'), facts)
+        else:
+            rep.check('C02.N', 'compress::patterns-are-the-distinct-raw-columns', raw, where(sm, f), facts,
+                      f"the pattern counter is keyed by {facts.get('offending')}, not by the column itself: columns with different symbols share one pattern and the tip vectors of "
+                      f"whichever column came first are used for all of them")
+    check_child_symmetry(ctx, rep)
+    check_labels_are_names(ctx, rep)
     # (f) nothing computed from a method argument is memoised on the shared SitePattern without that argument in the key
     from props import c11
     from sa.report import RuleProxy
